@@ -25,6 +25,39 @@ ProgramsQuick == {[funcs |-> <<Bodies1, Bodies2>>, glyph |-> g] : Bodies1 \in {<
                               <<I("PUSH", 121), I("PUSH", -1), I("ADD", 0), I("DUP", 0), I("JROT", -3)>>, <<I("PUSH", 122), I("PUSH", -1), I("ADD", 0), I("DUP", 0), I("JROT", -3)>>,
                               <<I("PUSH", 31), I("PUSH", 0), I("CALL", 0)>>, <<I("PUSH", 60), I("PUSH", 1), I("LOOPCALL", 0), I("PUSH", 70), I("PUSH", 0), I("LOOPCALL", 0)>>}}
                  \cup OperandLoops
+\* ---- extreme operands (C20): every unary / binary arithmetic opcode on boundary values, and point / CVT moves ----
+MaxI == 2147483647
+MinI == -2147483647 - 1
+Extremes == {0, 1, -1, 32, 63, 64, 1073741824, -1073741824, MaxI, MinI}
+Unary == {100, 101, 102, 103, 104, 105, 106, 107, 108, 109, 110, 111, 86, 87}      \* ABS NEG FLOOR CEILING ROUND[0-3] NROUND[0-3] ODD EVEN
+Binary == {96, 97, 98, 99, 139, 140}                                                \* ADD SUB DIV MUL MAX MIN
+NoFuncs == <<<<>>, <<>>>>
+ArithPrograms ==
+  {[funcs |-> NoFuncs, glyph |-> <<I("PUSH", a), I("A1", o), I("POP", 0)>>] : a \in Extremes, o \in Unary}
+  \cup {[funcs |-> NoFuncs, glyph |-> <<I("PUSH", a), I("PUSH", b), I("A2", o), I("POP", 0)>>] : a \in Extremes, b \in Extremes, o \in Binary}
+  \* SROUND / S45ROUND with every period / phase / threshold nibble pattern class, then ROUND
+  \cup {[funcs |-> NoFuncs, glyph |-> <<I("PUSH", n), I("P1", sr), I("PUSH", a), I("A1", 104), I("POP", 0)>>] : n \in {0, 15, 64, 127, 128, 191, 192, 255}, sr \in {118, 119}, a \in Extremes}
+  \* SCFS / SHPIX / MSIRP on point 1 with extreme distances (SVTCA[x] first), then read back with GC
+  \cup {[funcs |-> NoFuncs, glyph |-> <<I("P0", 1), I("PUSH", 1), I("PUSH", a), I("P2", mv), I("PUSH", 1), I("A1", 70), I("POP", 0)>>] : a \in Extremes, mv \in {72, 56}}
+  \* write / read the control value table with extreme values (pixels and font units), move a point to it
+  \cup {[funcs |-> NoFuncs, glyph |-> <<I("PUSH", 1), I("PUSH", a), I("P2", w), I("PUSH", 1), I("A1", 69), I("POP", 0), I("PUSH", 2), I("PUSH", 1), I("P2", 63)>>] : a \in Extremes, w \in {68, 112}}
+\* every point / CVT / state instruction with a (mostly valid) first operand and an extreme second one
+Firsts == {0, 1, 3, 6, 7, -1, MaxI, MinI}
+Pop2Ops == {72, 56, 58, 59, 62, 63, 224, 228, 255, 68, 112, 66, 39, 6, 8, 134, 10, 11, 142, 129}
+Pop1Ops == {46, 47, 192, 205, 223, 60, 57, 50, 52, 54, 16, 19, 31, 30, 29, 26, 94, 95, 133, 41, 38, 37, 23}
+Push1Ops == {70, 71, 69, 67, 136}                 \* GC[0] GC[1] RCVT RS GETINFO: pop 1 push 1
+OperandPrograms ==
+  {[funcs |-> NoFuncs, glyph |-> <<I("PUSH", a), I("PUSH", b), I("P2", o)>>] : a \in Firsts, b \in Extremes, o \in Pop2Ops}
+  \cup {[funcs |-> NoFuncs, glyph |-> <<I("PUSH", b), I("PUSH", a), I("P2", o)>>] : a \in {0, 1, 3}, b \in Extremes, o \in Pop2Ops}
+  \cup {[funcs |-> NoFuncs, glyph |-> <<I("PUSH", b), I("P1", o)>>] : b \in Extremes \cup Firsts, o \in Pop1Ops}
+  \cup {[funcs |-> NoFuncs, glyph |-> <<I("PUSH", b), I("A1", o), I("POP", 0)>>] : b \in Extremes \cup Firsts, o \in Push1Ops}
+  \cup {[funcs |-> NoFuncs, glyph |-> <<I("PUSH", a), I("PUSH", b), I("A2", 73), I("POP", 0)>>] : a \in Firsts, b \in Firsts}      \* MD
+  \* move two points far apart, then the instructions that measure / intersect / interpolate between them
+  \cup {[funcs |-> NoFuncs, glyph |-> <<I("PUSH", 1), I("PUSH", a), I("P2", 72), I("P0", 0), I("PUSH", 2), I("PUSH", b), I("P2", 72),
+                                         I("PUSH", 0), I("PUSH", 1), I("PUSH", 2), I("PUSH", 3), I("PUSH", 4), I("P5", 15),
+                                         I("PUSH", 1), I("P1", 16), I("PUSH", 2), I("P1", 17), I("PUSH", 3), I("P1", 57),
+                                         I("PUSH", 1), I("PUSH", 2), I("A2", 73), I("POP", 0), I("P0", 48), I("P0", 49)>>] : a \in Extremes, b \in Extremes}
+ProgramsArith == ArithPrograms \cup OperandPrograms
 ProgramsThorough == ProgramsQuick \cup {[funcs |-> <<b1, b2>>, glyph |-> g] : b1 \in {<<I("PUSH", 1)>>, <<I("POP", 0)>>}, b2 \in {<<>>}, g \in SeqsUpTo(Alphabet, 4)}
 
 Dump == (status # "run") => PrintT(<<"PROG", ToJson([funcs |-> p.funcs, glyph |-> p.glyph, outcome |-> status, steps |-> steps])>>)
